@@ -62,6 +62,11 @@ Check (C03_unspread_fragment_refuted :
 Check (C03_same_interface_now_flagged :
   (exists p i, check_operation_document w_schema_0 w_doc_1 = [mkErr (FieldNotFound (s "nonexistent") (s "I")) p i])
   /\ length (check_operation_document w_schema_0 w_doc_2) = 2).
+Check (C03_int_range : forall lexeme, parse_i32 lexeme = int32_lexeme lexeme).
+Check (C03_int_range_flagged :
+  length (check_operation_document w_schema_0 w_doc_17) = 2
+  /\ parse_i32 (s "2147483647") = true /\ parse_i32 (s "-2147483648") = true
+  /\ parse_i32 (s "2147483648") = false /\ parse_i32 (s "-2147483649") = false /\ parse_i32 (s "-") = false).
 Check (C03_custom_scalar_variable_refuted :
   exists S D, check_operation_document S D = [] /\ rule_ok S D R_vars_defined = false).
 Check (C03_duplicate_argument_refuted :
@@ -88,5 +93,7 @@ Print Assumptions C03_sound_full_refuted.
 Print Assumptions C03_type_compat_is_AreTypesCompatible.
 Print Assumptions C03_unspread_fragment_refuted.
 Print Assumptions C03_same_interface_now_flagged.
+Print Assumptions C03_int_range.
+Print Assumptions C03_int_range_flagged.
 Print Assumptions C03_custom_scalar_variable_refuted.
 Print Assumptions C03_duplicate_argument_refuted.
